@@ -3,16 +3,25 @@ from core import Case
 from . import rtgen as R
 
 ID = "C05"
-THEOREMS = ['Portus.C05.ready_installs_all', 'Portus.C05.first_create_installs_before_handler', 'Portus.C05.no_other_installs', 'Portus.C05.addresses_stay_registered', 'Portus.C05.install_before_use_partial', 'Portus.Rt.runUser_spec', 'Portus.Rt.step_ok']
+AUDIT_IMPORTS = ["PortusModel.Props.C05History"]
+THEOREMS = ['Portus.C05.install_before_use', 'Portus.C05.install_before_use_sf', 'Portus.C05.install_before_use_trace', 'Portus.C05.installedOk_sound', 'Portus.C05.runHistSf_cons', 'Portus.C05.ready_installs_all', 'Portus.C05.first_create_installs_before_handler', 'Portus.C05.no_other_installs', 'Portus.C05.addresses_stay_registered', 'Portus.C05.install_before_use_partial', 'Portus.Rt.runUser_spec', 'Portus.Rt.step_ok']
+SPEC_IS_ORACLE = True  # the compared trace is what the property speaks about and is determined by the history
 KEEP = {"RX", "TX IN", "TX CP", "TXFAIL", "NF", "RES"}
 RELATION = 'send trace (installs and change-program commands with destination and program) interleaved with RX / new_flow markers'
 RULE = 'histories as for C02 with 1..4 programs spread over 1..5 algorithms, flows that select programs from new_flow and from on_report, create-before-ready (first contact by create), restarts, second and third address, injected send failures. non-trivial = at least one install batch and one change-program; distinct by case line'
-EXPLANATION = "theorems (per step, every state/configuration/bounded policy): a ready sends the complete install batch exactly once after dropping the old flows; a create from an unregistered address sends the batch before new_flow; no other message causes an install (all other transmissions are type 3/4 commands of user code); registered addresses stay registered; every change-program goes to the sender's address and names a configured program's uid. The history-level combination is install_before_use_partial (per step, relative to the registration invariant). Oracle checkC05 on the real trace"
+EXPLANATION = "theorems (per step, every state/configuration/bounded policy): a ready sends the complete install batch exactly once after dropping the old flows; a create from an unregistered address sends the batch before new_flow; no other message causes an install (all other transmissions are type 3/4 commands of user code); registered addresses stay registered; every change-program goes to the sender's address and names a configured program's uid. install_before_use lifts them to every history by the invariant 'registered => complete batch since the last ready'. Oracle checkC05 on the real trace"
 ASSUMPTIONS = ["user callbacks do not panic, issue commands only through their handle, and use field lists shorter than 2^24",
                "HashMap iteration order is canonicalised (install batches and drop batches are sorted)"]
-LEVEL_TEXT = "Machine-checked proof (Lean 4), per dispatch step and for every state/configuration/policy: ready => complete install batch exactly once; first contact by create => the batch before the handler runs; nothing else installs; commands only to registered (hence installed) addresses, naming configured uids. PARTIAL: the quantification over whole histories ('since the datapath last announced itself') is assembled from these per-step theorems and the registration invariant informally, not as one Lean theorem. Model tied to the code by differential runs on send traces."
-LEVEL_NOTE = 'Trusts: Lean kernel; correspondence sampling; policy discipline (no sends from Drop). History-level composition not yet a single theorem.'
-TECHNIQUE = 'Lean 4 per-step theorems + registration invariant + differential correspondence on send traces + Lean trace oracle'
+LEVEL_TEXT = ("Machine-checked proof (Lean 4) for EVERY history of messages, configuration, bounded policy and send-failure schedule "
+              "(install_before_use / install_before_use_sf / install_before_use_trace): in the trace of the run, every change-program "
+              "command to an address names the uid of a configured program whose install message was transmitted to that address "
+              "earlier and after that address's last ready. Proved by an invariant (every registered address holds the complete batch "
+              "since its last ready) over the per-step theorems: ready => complete install batch exactly once; first contact by create "
+              "=> the batch before the handler runs; nothing else installs; commands only to the sender's own address. The history is "
+              "the sequence of decoded messages (the framing of datagrams into that sequence is C08). Model tied to the code by "
+              "differential runs on send traces; the Lean trace oracle checkC05 is evaluated on the real trace.")
+LEVEL_NOTE = 'Trusts: Lean kernel; correspondence sampling; policy discipline (no sends from Drop, callbacks do not panic).'
+TECHNIQUE = 'Lean 4 history-level theorem (invariant over all message histories) + differential correspondence on send traces + Lean trace oracle'
 
 
 def project(c, r):
